@@ -89,6 +89,7 @@ structure ApplyOK (m : MddMgr) (c : Conn) (u : Int) (v w : Option Int) (r : Int)
   mem : m'.tbl.Mem r
   den : ∀ a, MValid m.tbl a →
     denM m'.tbl r a = c.eval (denM m.tbl u a) (denO m.tbl v a) (denO m.tbl w a)
+  exact : ∀ ext, RefExact m ext → RefExact m' ext
 
 theorem optNotMem_false {m : MddMgr} (h : MInv m) {v : Option Int} (hv : ¬ optNotMem m v = true) :
     ∀ x, v = some x → m.tbl.Mem x := by
@@ -142,7 +143,7 @@ theorem mApply_spec (m : MddMgr) (h : MInv m) (op : String) (c : Conn) (hc : doc
               rw [htempl] at hs
               have hcn : c = .not := by cases c <;> simp at hs <;> rfl
               subst hcn
-              refine ⟨h, MExt.refl _, MTbl.mem_neg mu, ?_⟩
+              refine ⟨h, MExt.refl _, MTbl.mem_neg mu, ?_, fun _ hx => hx⟩
               intro a _
               rw [denM_neg m.tbl hW u a mu]; rfl
             · -- an if-then-else template
@@ -184,7 +185,7 @@ theorem mApply_spec (m : MddMgr) (h : MInv m) (op : String) (c : Conn) (hc : doc
                       (fun hq => hwuse z (Or.inr (Or.inr rfl)) hq a) hcc
                     have I := mIte_spec m h a' b' c' (A (fun _ => 0)).1 (B (fun _ => 0)).1
                       (C (fun _ => 0)).1 r m' hr
-                    refine ⟨I.inv, I.ext, I.mem, ?_⟩
+                    refine ⟨I.inv, I.ext, I.mem, ?_, I.exact⟩
                     intro a hva
                     rw [I.den a hva, (A a).2, (B a).2, (C a).2]
                     have h1 := bools_all htt (denM m.tbl u a)
